@@ -507,3 +507,30 @@ Definition sderive_inc (old : list N) (new : list schange) : list N :=
 
 (* declarative: union of the plain contents of all held changes *)
 Definition sunion_all (held : list schange) : list N := nsort (flat_map sc_ids held).
+
+(* ------------------------------------------------------------------ the settings object (settingsObject) *)
+(* What the sync tree reports to its update listener after changes were added (objecttree.Mode) or at a build:
+   Init (NewSettingsObject + Init, incl. a restart: afterBuild calls Rebuild), Append -> settingsObject.Update,
+   Rebuild -> settingsObject.Rebuild, Nothing -> no call. *)
+Inductive smode := SInit | SAppend | SRebuild | SNothing.
+
+(* one listener call: the tree's root as Build sees it ([None] = the true root, which carries nothing; [Some r] =
+   a snapshot change) and the changes the tree iterates after the start point - after LastIteratedId of the kept
+   state for Update, after the root for Rebuild / Init *)
+Record sev := mkSEv { se_mode : smode; se_root : option schange; se_after : list schange }.
+
+(* the object's kept state (settingsstate.State.DeletedIds) and everything it handed to
+   DeletionManager.UpdateState so far (the deletion state only ever adds) *)
+Record sobj := mkSObj { so_state : list N; so_seen : list N }.
+
+Definition sobj_init : sobj := mkSObj [] [].
+
+(* Update: Build(tree, state) continues; Rebuild: state := nil, Build(tree, nil); both then UpdateState(state) *)
+Definition sobj_step (o : sobj) (e : sev) : sobj :=
+  match se_mode e with
+  | SNothing => o
+  | SAppend => let st := sderive_inc (so_state o) (se_after e) in mkSObj st (sunion (so_seen o) st)
+  | SInit | SRebuild => let st := sderive_scratch (se_root e) (se_after e) in mkSObj st (sunion (so_seen o) st)
+  end.
+
+Definition sobj_run (o : sobj) (evs : list sev) : sobj := fold_left sobj_step evs o.
